@@ -4,6 +4,7 @@ CONSTANTS
   Sources <- Both
   BaseDepth = 3
   FinalOps = "few"
+  StartCalcs <- BothStarts
   Emit = TRUE
 INVARIANT ContentKept
 INVARIANT ColumnsKept
